@@ -68,6 +68,14 @@ var curLayouts = map[string][]curArchSpec{
 		{[]string{"A", "R", "S"}, []curTabSpec{{1, 2, 3, 0}, {2, 1, 1, 0}, {1, 3, 2, 0}, {3, 3, 1, 1}}},
 		{[]string{"A", "B", "R", "S"}, []curTabSpec{{2, 2, 1, 0}, {1, 1, 1, 0}}},
 	},
+	// every archetype holds the components of the high-arity tuples (A,B,C,R,S,F1,F2,F3): a relation archetype whose
+	// tables are all empty, one whose first table does not match target 1, one with an empty table in between
+	"high": {
+		{[]string{"A", "B", "C", "R", "S", "F1", "F2", "F3"}, []curTabSpec{{1, 1, 2, 2}, {2, 1, 1, 1}}},
+		{[]string{"A", "B", "C", "R", "S", "F1", "F2", "F3", "F4"}, []curTabSpec{{2, 1, 2, 0}, {1, 1, 1, 0}}},
+		{[]string{"A", "B", "C", "R", "S", "F1", "F2", "F3", "F5"}, []curTabSpec{{1, 2, 1, 1}}},
+		{[]string{"A", "B", "C", "R", "S", "F1", "F2", "F3", "F4", "F5"}, []curTabSpec{{1, 2, 2, 0}, {3, 3, 1, 1}, {1, 3, 1, 0}}},
+	},
 }
 
 type curQuery interface {
@@ -139,7 +147,7 @@ func (x *Exec) CursorRun(maxLen int) {
 	for _, name := range sortedKeys(curLayouts) {
 		spec := curLayouts[name]
 		x.seq++
-		x.Cfg.Comps = []string{"A", "B", "R", "S"}
+		x.Cfg.Comps = []string{"A", "B", "C", "R", "S", "F1", "F2", "F3", "F4", "F5"}
 		x.newWorld()
 		w := x.w
 		x.emit(LogReset{K: "reset", Seq: x.seq, Rel: x.relNames(), Cfg: x.Cfg, Note: "cursor layout " + name})
@@ -233,15 +241,17 @@ func (x *Exec) CursorRun(maxLen int) {
 			rt     int
 			cached bool
 			mk     func() curQuery
+			high   bool // a high-arity kind: run on the layouts whose archetypes can match it
 		}
 		kinds := []kind{
-			{"query0", nil, 0, false, func() curQuery { q := ecs.NewFilter0(w).Query(); return curQ0{&q} }},
+			{"query0", nil, 0, false, func() curQuery { q := ecs.NewFilter0(w).Query(); return curQ0{&q} }, false},
 			{"unsafe", []string{"A"}, 0, false, func() curQuery {
 				q := ecs.NewUnsafeFilter(w, x.ids["A"]).Query()
 				return curUnsafe{&q, x.ids["A"]}
-			}},
+			}, false},
 		}
-		for _, tup := range [][]string{{"A"}, {"A", "B"}, {"A", "R"}, {"A", "B", "R"}} {
+		hi := []string{"A", "B", "C", "R", "S", "F1", "F2", "F3"}
+		for _, tup := range [][]string{{"A"}, {"A", "B"}, {"A", "R"}, {"A", "B", "R"}, hi[:4], hi[:5], hi[:6], hi[:7], hi[:8]} {
 			tup := tup
 			key := strings.Join(tup, ",")
 			ctor, ok := filterCtors[key]
@@ -249,6 +259,22 @@ func (x *Exec) CursorRun(maxLen int) {
 				panic(harnessBug{"no filter instantiation for " + key})
 			}
 			hasR := has(tup, "R")
+			// the ID-based twin of the typed query: same component list, same per-query target
+			for _, rt := range []int{0, 1} {
+				if (rt != 0 && !hasR) || len(tup) == 1 {
+					continue
+				}
+				rt := rt
+				ids := x.idsOf(tup)
+				rels := []ecs.Relation{}
+				if rt != 0 {
+					rels = append(rels, ecs.RelID(x.ids["R"], targets[rt]))
+				}
+				kinds = append(kinds, kind{fmt.Sprintf("unsafe%d", len(tup)), tup, rt, false, func() curQuery {
+					q := ecs.NewUnsafeFilter(w, ids...).Query(rels...)
+					return curUnsafe{&q, x.ids["A"]}
+				}, len(tup) > 3})
+			}
 			for _, cached := range []bool{false, true} {
 				for _, rt := range []int{0, 1} {
 					if rt != 0 && !hasR {
@@ -264,11 +290,14 @@ func (x *Exec) CursorRun(maxLen int) {
 						rels = append(rels, ecs.RelID(x.ids["R"], targets[rt]))
 					}
 					kinds = append(kinds, kind{fmt.Sprintf("typed%d", len(tup)), tup, rt, cached,
-						func() curQuery { return curTyped{f.Query(rels...)} }})
+						func() curQuery { return curTyped{f.Query(rels...)} }, len(tup) > 3})
 				}
 			}
 		}
 		for _, k := range kinds {
+			if k.high && name != "high" && name != "two-relations" {
+				continue
+			}
 			lay := describe(k.with, k.rt)
 			if k.name == "query0" {
 				for i := range lay {
